@@ -137,14 +137,23 @@ def decoding_job(job_id, n, top_k, mode, B=1, source_filter=None):
                                             "temperature": float(core.model_value(m, temp.a[()])),
                                             "top_p": float(core.model_value(m, top_p.a[()])) if mode == "topp" else 0.0, "top_k": top_k,
                                             "tanh_clipping": float(core.model_value(m, clip.a[()])) if mode == "tanh" else 0.0,
-                                            "shift": float(core.model_value(m, shift)) if mode == "shift" else 0.0},
+                                            "shift": float(core.model_value(m, shift)) if mode == "shift" else 0.0, "strategy": mode == "strategy"},
                                  "model_kind": label, "mode": "C10"})
             return reps
 
         slack = z3.Real("slack!")
         E.assume(slack >= 0)
         shift = z3.Real("shift_c")
-        out = dec.process_logits(L, M, temperature=temp, top_p=top_p, top_k=top_k, tanh_clipping=clip)
+        if mode == "strategy":
+            # the filters as the decoding strategies apply them: DecodingStrategy.step forwards its temperature / top-k /
+            # top-p settings to process_logits (a step that drops or rewrites a setting on the way is a C10 violation)
+            from symtorch.tdict import TensorDict as _TD
+
+            strat = dec.Sampling(temperature=temp, top_p=0.0, top_k=top_k, tanh_clipping=0, mask_logits=True, store_all_logp=True)
+            strat.step(L, M, _TD({}, batch_size=[B]))
+            out = None
+        else:
+            out = dec.process_logits(L, M, temperature=temp, top_p=top_p, top_k=top_k, tanh_clipping=clip)
         ctx.states += 1
         ctx.transitions += 1
         finals = [c for c in CALLS if c[2]][-B:]
